@@ -99,7 +99,7 @@ where
         } else {
             v.extend([Op::K2 { cell: 0, facet: 0 }, Op::K1Remove { v: 0 }, Op::K2Stale, Op::K1RemoveStale, Op::K2Inv { v0: 0, v1: 1 }, Op::K3 { cell: 0, a: 0, b: 1 }]);
         }
-        v.extend([Op::Repair, Op::RepairAdvanced, Op::CloneSwap, Op::SerdeSwap, Op::TouchMut]);
+        v.extend([Op::Repair, Op::RepairAdvanced, Op::CloneSwap, Op::SerdeSwap, Op::TouchMut, Op::RepairLocalFacets { a: 0, b: 1, c: 2 }, Op::RepairLocalFacets { a: 0, b: 0, c: 99 }]);
         for i in 0..4 {
             v.push(Op::SetVP(i));
         }
